@@ -175,7 +175,7 @@ Inductive vop :=
 | OTmplRedefine (site : N) (raw : bool) (i : N)
                                (* Object.defineProperty(strings, i, {value: strings[i]}) / Object.freeze(strings):
                                   a PERMITTED no-op redefinition: object.go:709-745 stores into the existing (shared)
-                                  *valueProperty and array.go:435 stores it back into the (shared) slice — finding F20 *)
+                                  *valueProperty and array.go:435 stores it back into the (shared) slice — finding C16-N1 *)
 | OEnterBlock (site : N)       (* vm.go:3660/3684: vm.stash.names = e.names (shared map, only read afterwards) *)
 | OEnterFunc (site : N) (extensible : bool)
                                (* vm.go:3747-3757 (also 3817, 3864): the names map is COPIED when the scope is dynamic
@@ -215,7 +215,7 @@ Definition ev_vop (r : nat) (p : N) (o : vop) : list event :=
 Definition events_of_run (r : nat) (p : N) (ops : list vop) : list event :=
   flat_map (ev_vop r p) ops.
 
-(* every step except the redefinition of a template cell (open finding F20) *)
+(* every step except the redefinition of a template cell (open finding C16-N1) *)
 Definition vop_ok (o : vop) : bool := match o with OTmplRedefine _ _ _ => false | _ => true end.
 
 (* ------------------------------------------------------------------------------------------ *)
